@@ -16,7 +16,7 @@ CHECKS = {
          "(frozen near day/month/year/leap boundaries, ticking, crossing a boundary or stepping back inside one evaluation) and six host time zones "
          "(time literals placed inside the skipped/repeated hour of the host zone). Oracle O-total: every call returns (panics are caught and attributed, "
          "hangs/aborts are caught by a watchdog and confirmed in a fresh process), status true, one slot per line, and a well-formed line after malformed ones "
-         "evaluates as it does alone. Exploration level: the space of texts is unbounded; what the simulator adds is the environment dimension (when and where the library runs).",
+         "evaluates as it does alone. A quarter of the runs register caller-supplied rules (patterns of two or more tokens) that accept or decline and feed lines that reach them; sessions are also evaluated again without a new text, given the identical text twice and switched to another language while alive. Exploration level: the space of texts is unbounded; what the simulator adds is the environment dimension (when and where the library runs).",
     design="6 (C01), 4, 5",
     technique="deterministic simulation: seeded clock/host-zone/config-history fault injection with a totality oracle and watchdog"),
  "C04": dict(
@@ -25,11 +25,13 @@ CHECKS = {
          "the clock source fails inside one-shot evaluations. Oracle O-projection: every client step is re-executed on a replica calculator that saw all administrator calls but only a projection "
          "of the evaluations (session texts fed one line at a time; one-shot steps rotate over replicas) and must give the identical observation (status, slots, values, outputs, highlight tokens); "
          "O-probe: uniquely named probes bound in a session must read back in all later texts of that session and nowhere else; slot count per new text. "
+         "Scheduling INSIDE evaluations: the only yield points of a synchronous evaluation are the invocations of caller-supplied rule callbacks; the simulator runs other clients' steps (one-shot or on another session, under their own frozen instant, possibly across midnight or a year) inside callback invocation k of an evaluation in progress, and both the interrupted evaluation and the inner steps must equal their sequential replicas. "
+         "Further history kinds: a session evaluated again without a new text, the identical text set twice, set_language on a live session, the public format_result applied to a session's last values between two texts, a handful of sentinel lines repeated by every client through the whole history. "
          "Exploration level: histories are sampled, not enumerated.",
     design="6 (C04), 5",
-    technique="deterministic simulation: seeded interleaving of clients/admin on one calculator, projection onto shadow replicas"),
+    technique="deterministic simulation: seeded interleaving of clients/admin on one calculator (whole calls, and steps scheduled inside rule-callback invocations of an evaluation in progress), projection onto shadow replicas"),
  "C03": dict(
-    text="Seeded deterministic simulation of 1..3 session clients and a one-shot client running generated straight-line programs (bindings, re-bindings, self-referential re-bindings, copies, uses inside phrases, failing lines between a binding and its use) over a vetted pool of one- and multi-word names (prefixes of each other, case variants) with values of all seven kinds; programs are delivered in seeded chunks through set_text, interleaved by a seeded scheduler, sessions are dropped and recreated, the clock advances between events. Oracle: executable environment model (value semantics, longest-name precedence, case-insensitive names, failed lines leave the environment untouched) judged line by line. Exploration level.",
+    text="Seeded deterministic simulation of 1..3 session clients and a one-shot client running generated straight-line programs (bindings, re-bindings, self-referential re-bindings, copies, uses inside phrases, failing lines between a binding and its use) over a vetted pool of one- and multi-word names (prefixes of each other, case variants) with values of all seven kinds; programs are delivered in seeded chunks through set_text, interleaved by a seeded scheduler, sessions are dropped and recreated, evaluated again without a new text, given the identical text twice and switched to another language and back while alive, the clock advances between events; lines use one or two variables (a name and a longer name that starts with it in one line). Oracle: executable environment model (value semantics, longest-name precedence, case-insensitive names, failed lines leave the environment untouched) judged line by line. Exploration level.",
     design="6 (C03), 5", technique="deterministic simulation: seeded chunking/interleaving of session programs against an executable environment model"),
  "C06": dict(
     text="Seeded deterministic simulation of session clients holding money values, one-shot conversions over all rated currencies (every literal spelling, all connectives, +,-,*,/ and money/money) and an administrator updating rates by code, alias and symbol (plus unknown names and currencies that had no rate), biased to land between a binding and its use. Oracles: rate-table model (amount * rate(B)/rate(A), data read from the repository's config.json), return value of update_currency, and 'exactly that currency': conversions not involving the updated currency are bit-identical before and after every update. Exploration level; the thorough tier walks all 992 ordered pairs as part of the workload.",
@@ -44,10 +46,10 @@ CHECKS = {
     text="Seeded deterministic simulation of timestamp lines ('N to date', 'N to ZONE', '<date|time|date at time> as unix', inverse pairs held in session variables; N across 1970..9999, negative and beyond 2^31) under a scripted clock across years and default-zone changes between the halves of an inverse pair. Oracles: epoch model (seconds since 1970-01-01T00:00Z from civil date, wall time and offset, own calendar), inverse-ness through variables, digit-exact printing, clock atomicity. The pinned suite's only test of this feature depends on the year it was written in and always fails. Exploration level.",
     design="6 (C14), 5", technique="deterministic simulation: scripted clock and default-zone change histories with an epoch model"),
  "C15": dict(
-    text="Seeded deterministic simulation of a two-evaluation history per value: evaluate a value line of every printable kind (number, percent, money, duration, time with zone, date, unit quantity, based integer; en and tr), then evaluate its printed form at the same frozen, boundary-biased instant, host zone and configuration (separator/digit/flag/default-zone history through the public setters); the second print must equal the first. Clock-dependent kinds (date: year elision and default year; time: anchoring, host zone) are what the simulator contributes; clock-free kinds ride along and are counted separately. Exploration level.",
+    text="Seeded deterministic simulation of a two-evaluation history per value: evaluate a value line of every printable kind (number, percent, money, duration, time with zone, date, unit quantity, based integer; en and tr), then evaluate its printed form at the same frozen, boundary-biased instant, host zone and configuration (separator/digit/flag/default-zone history through the public setters); the second print must equal the first. Clock-dependent kinds (date: year elision and default year; time: anchoring, host zone) are what the simulator contributes; clock-free kinds ride along and are counted separately. Exploration level. A third of the runs send every value through ONE long-lived session whose language is switched between values; a third register user-defined units while the calculator is already in use and round-trip quantities of those units.",
     design="6 (C15), 5", technique="deterministic simulation: print/read fixed point under simulated clock, host zone and configuration history"),
  "C18": dict(
-    text="Seeded deterministic simulation of registration histories (add_rule / delete_rule / add_dynamic_type / add_dynamic_type_item; valid, duplicate, unknown language/name/family) interleaved with evaluations; rule callbacks are simulator-owned and accept or decline as a pure function of (salt, rule, fields). Oracles: registration model for return values; callback log (first live rule in registration order is called first with fields bound by name, next one after a decline, result token of the accepting rule, transparency when all decline - against a replica without custom rules); O-survivors: at checkpoints a FRESH calculator receives only the surviving registrations in original order and must evaluate a probe set identically; rejected calls change nothing (probe set bit-identical); family chain model (product of declared factors). Exploration level.",
+    text="Seeded deterministic simulation of registration histories (add_rule / delete_rule / add_dynamic_type / add_dynamic_type_item; valid, duplicate, unknown language/name/family) interleaved with evaluations; rule callbacks are simulator-owned and accept or decline as a pure function of (salt, rule, fields). Oracles: registration model for return values; callback log (first live rule in registration order is called first with fields bound by name, next one after a decline, result token of the accepting rule, transparency when all decline - against a replica without custom rules); O-survivors: at checkpoints a FRESH calculator receives only the surviving registrations in original order and must evaluate a probe set identically; rejected calls change nothing (probe set bit-identical); family chain model (product of declared factors). Exploration level. Extended workload: chain steps that are not proportional (offsets), lines with several spots joined by operators (judged when exactly one live rule accepts each spot; the generator aims lines at decline/accept constellations using the run's decision salt), keywords in another case and with non-ASCII letters; an evaluation that never returns is a violation (watchdog, confirmed alone in a fresh process).",
     design="6 (C18), 5", technique="deterministic simulation: seeded registration/deletion histories with callback decline injection, survivors replica and registration model"),
 }
 
